@@ -593,6 +593,49 @@ def family_curs(cat):
             order=(1, 2, 1, 2))
 
 
+def family_block(cat):
+    """the first subtable that MATCHES wins even when it changes nothing: contextual rules without nested
+    actions (the 'ignore sub' / 'ignore pos' idiom) in all six formats, identity substitutions, explicit zero
+    adjustments.  The glyphs of such a match are consumed: later subtables and later rules must not apply at
+    the same position or inside the matched input."""
+    for fl in (dict(), dict(flags=["mark"])):
+        for fmt in (1, 2, 3):
+            for chain in (False, True):
+                # exception for "1 2", otherwise substitute; the follower would also match inside the exception
+                cat.add("block", [lookup([ctx([rule([{1}, {2}], [])], fmt=fmt, chain=chain),
+                                          single({1: 6, 2: 3})], **fl)])
+                # two rules of one subtable: the action-less one comes first
+                cat.add("block", [lookup([ctx([rule([{1}, {2}], []), rule([{1}], [(0, 2)])], fmt=fmt, chain=chain)], **fl),
+                                  CHILDREN["single"]()])
+                # action-less subtable followed by a contextual subtable with an action
+                cat.add("block", [lookup([ctx([rule([{1}, {2}], [])], fmt=fmt, chain=chain),
+                                          ctx([rule([{1}], [(0, 2)]), rule([{2}], [(0, 2)])], fmt=fmt, chain=chain)], **fl),
+                                  CHILDREN["multi"]()])
+            # exception by context only (single input glyph): "ignore sub 1 when preceded by 2 / followed by 2"
+            cat.add("block", [lookup([ctx([rule([{1}], [], back=[{2}])], fmt=fmt, chain=True), single({1: 6})], **fl)])
+            cat.add("block", [lookup([ctx([rule([{1}], [], ahead=[{2}])], fmt=fmt, chain=True),
+                                      lig({1: [([2], 3)]})], **fl)])
+            # positioning: action-less contextual positioning shields a pair from the kerning that follows
+            cat.add("block", [lookup([ctx([rule([{1}, {2}], [])], fmt=fmt, chain=True),
+                                      pair1({(1, 2): (vr(0, 0, -50), None), (2, 1): (vr(0, 0, 7), None)})],
+                                     gpos=True, **fl)])
+            cat.add("block", [lookup([ctx([rule([{1}], [], ahead=[{2}])], fmt=fmt, chain=True),
+                                      spos({1: vr(5, 0, 0), 2: vr(0, 3, 0)})], gpos=True, **fl)])
+        # identity substitution, then a real one
+        cat.add("block", [lookup([single({1: 1}), single({1: 6, 2: 3})], **fl)])
+        cat.add("block", [lookup([multi({1: [1]}), multi({1: [2, 2]})], **fl)])
+        # explicit zero adjustments (kerning exceptions) in front of class-based kerning
+        cat.add("block", [lookup([pair1({(1, 2): (None, None)}),
+                                  pair2({1, 2}, {1: 1, 2: 1}, {1: 1, 2: 1}, [[(None, None), (None, None)],
+                                                                             [(None, None), (vr(0, 0, -50), None)]],
+                                        range(1, 7))], gpos=True, **fl)])
+        cat.add("block", [lookup([pair1({(1, 2): (vr(0, 0, 0), vr(0, 0, 0))}),
+                                  pair1({(1, 2): (vr(0, 0, -50), vr(1, 0, 0)), (2, 2): (vr(0, 0, 4), None)})],
+                                 gpos=True, **fl)])
+        cat.add("block", [lookup([spos({1: None}), spos({1: vr(5, 0, 0), 2: vr(1, 1, 1)})], gpos=True, **fl)])
+        cat.add("block", [lookup([spos({1: vr(0, 0, 0)}), spos({1: vr(5, 0, 0)})], gpos=True, **fl)])
+
+
 def family_malformed(cat):
     """C07: shapes the reader can deliver but that are not well formed (outputs are not compared)"""
     cat.add("mal-seqidx", [lookup([ctx([rule([{1}, {2}], [(2, 2), (0, 2)])])]), CHILDREN["single"]()])
@@ -641,7 +684,7 @@ FAMILIES = {
     "simple": family_simple, "lig": family_lig, "order": family_order, "ctx": family_ctx,
     "chain": family_chain, "gpos": family_gpos, "malformed": family_malformed, "ctxnest": family_ctxnest, "ctxskip": family_ctxskip,
     "curs": family_curs, "ctxfilt": family_ctxfilt, "bigid": family_bigid,
-    "ctxtrail": family_ctxtrail,
+    "ctxtrail": family_ctxtrail, "block": family_block,
 }
 
 
@@ -707,7 +750,7 @@ def random_case(rng, cid, maxlen=14):
     for i in range(n):
         if i == 0 and rng.random() < 0.5 and n > 1:
             nin = rng.randint(1, 3)
-            acts = [(rng.randrange(nin), rng.randint(2, n)) for _ in range(rng.randint(1, 2))]
+            acts = [(rng.randrange(nin), rng.randint(2, n)) for _ in range(rng.choice([0, 1, 1, 1, 2, 2]))]
             chain = rng.random() < 0.5
             r = rule([gs() for _ in range(nin)], acts,
                      back=[gs() for _ in range(rng.randint(0, 2))] if chain else [],
@@ -718,7 +761,8 @@ def random_case(rng, cid, maxlen=14):
                 fmt = 1
             elif rng.random() < 0.6 and all(_partition_ok(part) for part in (r["back"], r["in"], r["ahead"])):
                 fmt = 2
-            ll.append(lookup([ctx([r], fmt=fmt, chain=chain)], gpos=gpos, **rand_flags()))
+            ll.append(lookup([ctx([r], fmt=fmt, chain=chain)] + [leaf(gpos) for _ in range(rng.choice([0, 0, 1]))],
+                             gpos=gpos, **rand_flags()))
         else:
             ll.append(lookup([leaf(gpos) for _ in range(rng.randint(1, 2))], gpos=gpos, **rand_flags()))
     order = [rng.randint(1, n) for _ in range(rng.randint(1, 3))]
